@@ -57,10 +57,16 @@ def typed_weight(k, v):
     if v in (0, 1): types.append(np.bool_)
     return types[(sum(map(ord, str(k))) + abs(int(v))) % len(types)](v)
 
+def mapping_kind(d):
+    """the dictionary as some dict type (plain, OrderedDict, defaultdict(int)), chosen from its content"""
+    import collections
+    k = (len(d) + sum(abs(int(v)) for v in d.values())) % 6
+    return collections.OrderedDict(d) if k == 1 else collections.defaultdict(int, d) if k == 2 else d
+
 def run_solve(c):
     m = build(c["model"])
     rs = RecordingSolver(script_fn(c["script"]))
-    objs = [dict((k, typed_weight(k, v)) for k, v in o) for o in c["objs"]]
+    objs = [mapping_kind(dict((k, typed_weight(k, v)) for k, v in o)) for o in c["objs"]]
     def call():
         out = m.solve(objs, solver=rs, include_virtual_variables=c["incl"])
         return [({k: int(v) for k, v in d.items()}, pyint(ov), int(sc)) for d, ov, sc in out]
@@ -69,7 +75,7 @@ def run_solve(c):
 def run_select(c):
     cfg = build(c["model"])
     rs = RecordingSolver(script_fn(c["script"]))
-    prios = [dict((k, typed_weight(k, v)) for k, v in o) for o in c["prios"]]
+    prios = [mapping_kind(dict((k, typed_weight(k, v)) for k, v in o)) for o in c["prios"]]
     with CompressRecorder() as cr:
         def call():
             out = list(cfg.select(*prios, solver=rs, only_leafs=c["only_leafs"]))
